@@ -91,6 +91,7 @@ func c02Rules(c *Ctx) {
 	ext := extendOps(c, "fast", opOf)
 	ruleShortcuts(c, "fast", ext, "A7-shortcut", nil)
 	ruleIdentityStore(c, "A7s-identity-store")
+	ruleAccessorInCategoryArm(c, "A2c-accessor-in-category-arm", []string{"place_shifts.go", "place_ops.go", "place_set.go", "place_set_value.go"})
 	rulePlaceOperandOrder(c, "A6m-place-operand-order", []string{"place_set.go", "place_ops.go", "place_shifts.go", "place_set_value.go"})
 	ruleNoSharedRuntimeStorage(c, "H1-no-shared-storage")
 	ruleAbsentMapKey(c, "M1-absent-key", []string{"place_ops.go", "place_shifts.go", "place_set.go", "place_set_value.go", "assignment.go"})
